@@ -22,7 +22,7 @@ TECHNIQUE = ('Hypothesis-generated programs with reference-execution outputs: mu
              'single-want corruptions (must fail at that want); bounded exhaustive enumeration of want placements')
 RULE = ("programs of 1-8 statements (13 kinds: printing, value-bearing, None, assignments, loops, semicolon lines, "
         "printing+value, multi-line; new-style and classic prompt layouts) x placements of correct wants "
-        "(all / own / val / repl) x one corruption (replace, append, prepend, drop last line, stale prefix). "
+        "(all / own / val / repl) x one corruption (replace, append, prepend, drop last line, stale prefix, '...' want demanding the tail twice). "
         "Non-trivial: >= 2 wants, or a want matching output accumulated from >= 2 want-less statements, or a corruption "
         "at a want that is not the first. Distinct = distinct (docstring, corrupted docstring).")
 DESIGN_REF = '6.2'
@@ -241,6 +241,14 @@ def _check_nothing_ran(case):
 # ---------------------------------------------------------------------------
 
 
+def _ell_matches(got, want):
+    """could ``want`` (with '...') legitimately match ``got`` under the default leniencies?  (whitespace collapsed)"""
+    from vp.ref import ellipsis
+    g = ' '.join(got.split())
+    w = ' '.join(want.split())
+    return True in ellipsis.verdicts(g, w)
+
+
 def corrupt(D, wants, i, prev_idx, junk, allowed):
     w = wants[i]
     wl = w.rstrip('\n').split('\n')
@@ -250,8 +258,19 @@ def corrupt(D, wants, i, prev_idx, junk, allowed):
         kinds.append('droplast')
     if prev_idx is not None:
         kinds.append('stale_prefix')
+    # a want that abbreviates the middle with '...' but demands the tail twice: only overlapping pieces could match
+    flat = w.rstrip('\n')
+    dup = None
+    if len(flat) >= 3 and not flat[0].isspace() and flat[0] != '.':
+        tail = flat[-min(4, len(flat) - 1):]
+        cand = flat[:1] + '...' + tail + '...' + tail + '\n'
+        if '\n\n' not in cand and not any(_ell_matches(opt, cand) for opt in allowed | {w}):
+            dup = cand
+            kinds.append('ellipsis_dup')
     kind = D.choice(kinds)
-    if kind == 'replace':
+    if kind == 'ellipsis_dup':
+        text = dup
+    elif kind == 'replace':
         text = junk + '\n'
     elif kind == 'append':
         text = '\n'.join(wl + [junk]) + '\n'
